@@ -647,12 +647,19 @@ def gen_ops(rng, n):
 
 def run_extension(ctx):
     rng = ctx.rng
+    import time
+    t_last = [time.time()]
+
+    def lap(name):
+        now = time.time()
+        ctx.extra['seconds:' + name] = round(now - t_last[0], 1)
+        t_last[0] = now
     from props import c06
     import sys
     me = sys.modules[__name__]
     ext.check_indices(ctx)
     # the whole open, incl. stores whose n_chans attribute is not the stored channel count
-    for _ in range(ctx.scale(36, 360)):
+    for _ in range(ctx.scale(110, 1100)):
         t = gen_timing(rng)
         T, F = rng.randint(1, 6), rng.choice([2, 3, 4, 5, 6, 8])
         N = F if rng.random() < 0.55 else rng.choice([n for n in (2, 3, 4, 5, 6, 7, 8) if n != F])
@@ -663,12 +670,14 @@ def run_extension(ctx):
         if via != 'meta' and len(range(*slice(*(csl or (None, None))).indices(F))) == 0:
             continue            # a data set without channels in its data cannot be handled at all
         ext.check_open(ctx, me, t, T, F, N, dsl, csl, via, cw=rng.choice([1.0, 0.5, 4.0]), centre=rng.choice(CENTRES))
+    lap('indices+open_model')
     # vis / flags / weights on stores with lost chunks and flag streams of another length
-    for _ in range(ctx.scale(14, 160)):
+    for _ in range(ctx.scale(56, 600)):
         case = ext.gen_vfw_case(rng, c06)
         ext.check_vfw(ctx, c06, me, case, via='open' if rng.random() < 0.2 else 'direct')
+    lap('vfw')
     # explicit timestamps
-    for _ in range(ctx.scale(14, 140)):
+    for _ in range(ctx.scale(60, 600)):
         t = gen_timing(rng)
         T = rng.randint(1, 6)
         gaps = [0.0]
@@ -687,8 +696,9 @@ def run_extension(ctx):
             sl = (a, rng.choice([None, T, rng.randint(a + 1, T)]))
             ctx.count('given:straddles_fix_date')
         ext.check_given(ctx, me, t, T, gaps, sl, with_store=rng.random() < 0.4)
+    lap('given')
     # named windows
-    for _ in range(ctx.scale(60, 600)):
+    for _ in range(ctx.scale(200, 2000)):
         call = ext.gen_call(rng)
         ext.check_spw_object(ctx, call, rng.choice(['positional', 'keyword', 'mixed']), gen_ops(rng, call['n']))
     for n in rng.sample(range(1, 10), ctx.scale(3, 9) if ctx.tier != 'thorough' else 9):
@@ -696,6 +706,7 @@ def run_extension(ctx):
     t = gen_timing(rng)
     for sub_band, sub_product in [('l', 'c856M4k'), ('s', 'bc856M1k'), ('u', ''), ('x', 'c856M32k'), ('q', 'c856M4k')]:
         ext.check_v4_names(ctx, me, t, sub_band, sub_product)
+    lap('windows')
 
 
 # ---------------------------------------------------------------------------- driver
